@@ -86,15 +86,16 @@ class C09(Check):
         pos = [p for p in probes if p["in_scope"]]
         neg = [p for p in probes if not p["in_scope"]]
         # expected data for the positive probes via the reference
-        items = [[f"pr{k}", ["col", p["ref"]]] for k, p in enumerate(pos)] + [
-            [f"cp{k}", ["col", {"c": n}]] for k, n in enumerate(case.get("c_probes", []))]
+        items = [[f"zpr{k}", ["col", p["ref"]]] for k, p in enumerate(pos)] + [
+            [f"zcp{k}", ["col", {"c": n}]] for k, n in enumerate(case.get("c_probes", []))]
         exp = None
         if items:
+            # the probe columns are added to the table (no select: deselecting columns would change
+            # what is being tested); all columns are compared
             step = {"out": rv + "_probe", "verb": "mutate", "in": rv, "items": items}
-            sel = {"out": rv + "_psel", "verb": "select", "in": rv + "_probe", "cols": [{"c": n} for n, _ in items]}
+            sel = step
             try:
-                refsem.apply_step(run.ref, step)
-                exp = refsem.apply_step(run.ref, sel)
+                exp = refsem.apply_step(run.ref, step)
             except (refsem.RefReject, refsem.OutOfDomain) as ex:
                 out.discard = f"probe-ref:{type(ex).__name__}"
                 return
@@ -108,12 +109,16 @@ class C09(Check):
             if items:
                 try:
                     b.builder.step(step)
-                    b.builder.step(sel)
                     df = build.export_polars(b.vars[sel["out"]])
                     oracle.compare_ref(exp, df, view=view)
                     out.count(f"probes_compared:{kind}", len(items))
                 except oracle.Mismatch as mm:
-                    out.fail("mismatch", f"{kind}:probe:{mm.kind}", f"{kind}: probe columns differ from the referenced data: {mm}")
+                    from ..pipeline_oracle import _noopt_agrees
+
+                    if kind == "polars" and _noopt_agrees(b.vars[sel["out"]], lambda d: oracle.compare_ref(exp, d, view=view)):
+                        out.count("engine_quirk:polars_optimizer")
+                    else:
+                        out.fail("mismatch", f"{kind}:probe:{mm.kind}", f"{kind}: probe columns differ from the referenced data: {mm}")
                 except BaseException as ex:  # noqa: BLE001
                     reraise_control(ex)
                     from ..pipeline_oracle import engine_quirk
